@@ -178,6 +178,7 @@ func (in *mInst) reexportHazard(name string) bool {
 // plan is the model's analysis of instantiating a spec in the current store.
 type plan struct {
 	compileReject bool     // the module reads a mutable global in a constant expression (spec-invalid)
+	typeErr       bool     // ... or an element item reads a global of another type than the element type
 	specCompat    bool     // every import matches its export by the specification's rules
 	wzCompat      bool     // every import matches by the (stricter) rules wazero documents/implements
 	why           string   // first incompatibility
@@ -336,7 +337,8 @@ func (m *model) close(name string) {
 // plan analyses the instantiation of spec under instance name `name` without changing the store.
 func (m *model) plan(spec *ModSpec, name string) *plan {
 	p := &plan{specCompat: true, wzCompat: true, elemOOB: -1}
-	p.compileReject = spec.readsMutableGlobalInConstExpr()
+	p.typeErr = spec.elemItemTypeError()
+	p.compileReject = p.typeErr || spec.readsMutableGlobalInConstExpr()
 	in := &mInst{name: name, spec: spec, v: spec.view()}
 	for _, im := range spec.Imports {
 		ex, sp, wz, why := m.matchImport(im)
